@@ -6,18 +6,18 @@ H = []
 
 QUICK = {
     "C01": ["fub_poll_c2", "fub_poll_c2_inflight", "fub_poll_c2_handles", "fub_wake_c2", "fub_wake_c2_inflight", "fub_push_c2", "fub_poll_budget", "fub_poll_budget_many", "mb_poll_c2", "fu_cur_12_c1", "wl_fifo_c2"],
-    "C02": ["fub_poll_c2", "fub_stale_many", "fub_push_c2", "fu_poll_2", "fu_push_12", "fob_poll_c2", "fu_cur_12_c1", "fu_cur_12_c0", "sm_step_c3"],
+    "C02": ["fub_poll_c2", "fub_stale_many", "fub_push_c2", "fob_push_c2", "fu_poll_2", "fu_push_12", "fob_poll_c2", "fu_cur_12_c1", "fu_cur_12_c0", "sm_step_c3"],
     "C04": ["fob_poll_c2", "fob_poll_c2_p0", "fob_poll_c1_p2", "fob_push_c2", "fo_observe_c2", "ad_bo_n2_p0", "ja_poll_n2", "ctor_fub_from_iter"],
     "C05": ["fub_poll_c2", "mb_poll_c2", "mb_end_many_6", "ja_poll_n2", "fub_poll_c2_handles"],
     "C06": ["fub_drop_c2", "ja_poll_n2", "tja_poll_n2", "mb_poll_c2", "fob_drop_c2"],
     "C07": ["ja_poll_n2", "tja_poll_n2"],
-    "C08": ["fub_poll_c2", "fu_poll_2", "fu_push_12", "fu_push_2", "fu_cur_12_c0", "mu_push_12"],
+    "C08": ["fub_poll_c2", "fu_poll_2", "fu_push_12", "fu_push_2", "fu_cur_12_c0", "mu_push_12", "mu_poll_12_c1"],
     "C09": ["ad_bu_n2", "ad_bu_n3", "ad_tbu_n2", "ad_fe_n1", "ad_bo_n2_p0"],
     "C10": ["ad_bu_n2", "ad_tbu_n2", "ad_fe_n1", "ad_fe_n0", "ad_bo_n2_p0", "ad_bo_n2"],
     "C11": ["mb_poll_c2", "mb_push_c2", "mb_end_many_6", "mu_poll_12_c0", "mu_poll_12_c1", "mu_push_12", "ctor_mb_from_iter"],
     "C12": ["fub_poll_c2", "fub_wake_c2", "fub_push_c2", "mb_poll_c2", "fu_poll_2", "fub_poll_budget_61"],
-    "C13": ["fub_poll_c2", "fub_poll_budget", "fub_poll_budget_61", "fub_poll_budget_many", "mu_poll_12_c0", "mu_poll_12_c1", "fu_poll_2"],
-    "C14": ["ad_bu_n2", "ad_fe_n1", "fub_poll_c2_quiet", "fub_wake_c2", "fub_push_c2", "fub_drop_c2", "fu_cur_12_c0", "fub_poll_budget_61"],
+    "C13": ["fub_poll_c2", "fub_poll_budget", "fub_poll_budget_61", "fub_poll_budget_many", "mu_poll_12_c0", "mu_poll_12_c1", "fu_poll_2", "fu_cur_12_c1"],
+    "C14": ["ad_bu_n2", "ad_fe_n1", "mu_poll_12_c1", "fub_poll_c2_quiet", "fub_wake_c2", "fub_push_c2", "fub_drop_c2", "fu_cur_12_c0", "fub_poll_budget_61"],
     "C15": ["fub_poll_c2", "fub_push_c2", "fub_push_c0", "fob_push_c2", "fob_new", "fo_new", "fu_push_12", "fu_cur_12_c0", "sm_step_c3", "ctor_fub_from_iter", "ctor_fu_0", "ctor_fu_2"],
     "C16": ["ad_bo_n2", "ad_tbo_n2"],
     "C17": ["fub_poll_c2", "fu_poll_2", "fob_poll_c2", "fo_observe_c2", "ad_bu_n2", "ad_tbu_n2", "ad_bo_n2"],
@@ -97,8 +97,8 @@ h("ctor_fub_from_iter", ["C15", "C02", "C04", "C01"], QT, covers=["cover:three",
   bounds="n <= 3")
 h("ctor_fob_from_iter", ["C04", "C15"], T, unwindset=FOB_US if False else {"FuturesOrderedBounded.*poll_next#2": 3, "poll_inner_no_remove#0": 4, "binary_heap": 3}, timeout=1200,
   covers=["cover:first_yield"], what="FuturesOrderedBounded::from_iter of 2 futures: positions 0,1 in input order; the first output yielded is input 0's", bounds="2 futures")
-h("ctor_fu_0", ["C15", "C02", "C14"], QT, covers=["cover:cap0"], what="FuturesUnordered::with_capacity(0): empty, capacity 0, Ready(None), no task wake", bounds="n = 0")
-h("ctor_fu_2", ["C15", "C02", "C14"], QT, what="FuturesUnordered::with_capacity(2): empty, capacity 2, one group, Ready(None), no task wake", bounds="n = 2")
+h("ctor_fu_0", ["C15", "C02", "C14"], QT, unwind=35, covers=["cover:cap0"], panic_is_violation=True, what="FuturesUnordered::with_capacity(0): empty, capacity 0, Ready(None), no task wake; then one push is accepted (no panic)", bounds="n = 0")
+h("ctor_fu_2", ["C15", "C02", "C14"], QT, panic_is_violation=True, what="FuturesUnordered::with_capacity(2): empty, capacity 2, one group, Ready(None), no task wake; then one push is accepted (no panic)", bounds="n = 2")
 h("ctor_mb_from_iter", ["C11"], QT, what="MergeBounded::from_iter of 2 sources: both held and marked ready in input order", bounds="2 sources")
 
 # ---------------------------------------------------------------- Layer S: the slot map by itself
@@ -164,11 +164,11 @@ h("mb_poll_c2", ["C11", "C05", "C01", "C12", "C06", "C18"], QT, unwindset=MB_US,
 h("mb_poll_c2_quiet", ["C14"], T, unwindset=MB_US, timeout=1200, covers=["cover:pending"], what="MergeBounded<Src>, quiet environment", bounds="2 sources")
 W_MU = ("MergeUnbounded<Src> with two groups: ONE poll_next from an arbitrary pre-state; a designated VICTIM source is queued in one group; "
         "ranking obligation: if the victim is not polled by this call it must be nearer to its turn afterwards (cursor distance, queue position)")
-h("mu_poll_12_c0", ["C13", "C11", "C01", "C18"], QT, unwindset=MB_US, timeout=1500, covers=["cover:item_from_other", "cover:pending"], what=W_MU, bounds="groups (1,2); cursor 0")
+h("mu_poll_12_c0", ["C13", "C11", "C01", "C18", "C08", "C14"], QT, unwindset=MB_US, timeout=1500, covers=["cover:item_from_other", "cover:pending"], what=W_MU, bounds="groups (1,2); cursor 0")
 h("mu_push_12", ["C11", "C18", "C08", "C01", "C12"], QT, mem=24, timeout=1500, covers=["cover:push_new_group", "cover:push_last_group"],
   what="MergeUnbounded<Src>: ONE push (a source added while the merge is being consumed) from an arbitrary two-group pre-state: the last group takes it or a group of twice the capacity is appended; no source is polled, moved or dropped; allocations only for a new group",
   bounds="groups (1,2)")
-h("mu_poll_12_c1", ["C13", "C11", "C01"], QT, unwindset=MB_US, timeout=1500, covers=["cover:item_from_other", "cover:pending"], what=W_MU, bounds="groups (1,2); cursor 1")
+h("mu_poll_12_c1", ["C13", "C11", "C01", "C08", "C14"], QT, unwindset=MB_US, timeout=1500, covers=["cover:item_from_other", "cover:pending"], what=W_MU, bounds="groups (1,2); cursor 1")
 h("mb_push_c2", ["C11", "C01", "C12", "C08", "C14", "C18"], QT, covers=["cover:push_ok", "cover:push_refused"],
   what="MergeBounded<Src>: ONE try_push from an arbitrary INV pre-state (full or not): the source is held and marked ready, or handed back untouched; nothing polled, moved, dropped or woken; no allocation",
   bounds="capacity 2")
@@ -215,6 +215,8 @@ h("ad_tbo_n2", ["C16", "C09", "C10", "C17", "C14"], QT, unwindset=BO_US, timeout
 # ---------------------------------------------------------------- join_all
 JA_US = {POLL: 4, "JoinAll.*poll#0": 4, "JoinAll<.*Drop>::drop#0": 3}
 TJA_US = {POLL: 4, "TryJoinAll.*poll#0": 4, "TryJoinAll.*poll#1": 3, "drop_outputs#0": 3}
+h("ja_poll_n3", ["C06", "C07", "C04", "C05"], T, unwind=7, unwindset={POLL: 5, "JoinAll.*poll#0": 5, "JoinAll<.*Drop>::drop#0": 4}, timeout=3000, mem=30, covers=["cover:ready", "cover:pending_partial"],
+  what="join_all of 3 inputs: ONE poll from an arbitrary INV_join pre-state, then the result - or the still pending combinator - is dropped", bounds="3 inputs")
 h("ja_poll_n2", ["C06", "C07", "C04", "C05", "C18"], QT, unwindset=JA_US, covers=["cover:ready", "cover:pending_partial"],
   what="join_all of 2 inputs: ONE poll from an arbitrary INV_join pre-state (result slot written <=> input finished), then the result - or the still pending combinator - is dropped; outputs are drop-counted tokens",
   bounds="2 inputs")
